@@ -1,4 +1,7 @@
 use std::fmt;
+#[cfg(may_verif)]
+use crate::verif::atomic::{AtomicIsize, Ordering};
+#[cfg(not(may_verif))]
 use std::sync::atomic::{AtomicIsize, Ordering};
 use std::sync::Arc;
 use std::time::Duration;
